@@ -27,6 +27,9 @@ LockCases == { [shape |-> <<2, 2>>, anc |-> k[1], descs |-> << << <<"i1", k[2]>>
                  d \in { << >>, << <<"i1", "sequence">> >>, << <<"o2", "redeem_script">> >>, << <<"g", "proprietary">> >> } }
 \* the same addition made by both descendants (identical contents): the merge is either of them, nothing is doubled
 SamePairs == { [shape |-> <<2, 2>>, descs |-> << <<a>>, <<a>> >>, orders |-> << <<1, 2>>, <<2, 1>> >>] : a \in Adds }
+\* one descendant holds both forms of the spent output on an input, the other adds something else (or nothing)
+BothUtxo == { [shape |-> <<2, 2>>, descs |-> << << <<"i1", "non_witness_utxo">>, <<"i1", "witness_utxo">> >>, d >>, orders |-> << <<1, 2>>, <<2, 1>> >>]
+              : d \in { << >>, << <<"i1", "sequence">> >>, << <<"i2", "partial_sigs">> >>, << <<"g", "proprietary">> >> } }
 \* a finalized input in one descendant, any other input field on the same input in the other (nothing may be dropped because of it)
 FinalPairs == { [shape |-> <<2, 2>>, descs |-> << << <<"i1", fin>> >>, << <<"i1", f>> >> >>, orders |-> << <<1, 2>>, <<2, 1>> >>]
                 : fin \in {"final_script_sig", "final_script_witness"}, f \in InputOpt \ {"final_script_sig", "final_script_witness", "required_time_locktime", "required_height_locktime"} }
@@ -40,7 +43,7 @@ KsCases == { [a |-> [fp |-> a[1], path |-> a[2]], b |-> [fp |-> b[1], path |-> b
             : a \in KeySources, b \in KeySources }
 GInit == fam = << >> /\ acc = {} /\ merged = {} /\ order = << >>
 GNext == UNCHANGED vars
-ASSUME ndJsonSerialize(IOEnv.OUT, SetToSeq(PairCases \cup ShapeCases \cup FinalPairs \cup SamePairs \cup TripleCases) \o SetToSeq(LockCases))
+ASSUME ndJsonSerialize(IOEnv.OUT, SetToSeq(PairCases \cup ShapeCases \cup FinalPairs \cup SamePairs \cup BothUtxo \cup TripleCases) \o SetToSeq(LockCases))
 ASSUME ndJsonSerialize(IOEnv.OUT_KS, SetToSeq(KsCases))
 ASSUME PrintT(<<"EMITTED", Cardinality(Adds), Cardinality(PairCases) + Cardinality(ShapeCases), Cardinality(TripleCases), Cardinality(KsCases)>>)
 ====
